@@ -10,40 +10,24 @@
 From Verif Require Import Bytes Codec Md5 Meta Tx Fault TxProofs FaultProofs.
 
 (* (1) every failure up to and including the database commit: committed database state AND the whole directory
-   (published part files, temp names, backup names) are exactly as before — for ALL programs whose part-store
-   calls touch pairwise distinct part ids, all fault positions, all initial directories without stale names *)
-Theorem C03_rollback_partial : forall (D : Type) (prog : list (tstep D)) (ft : fault) (dbc : D) (fs0 : fsys),
+   (published part files, temp names, backup names) are exactly as before — for ALL programs (part ids may repeat,
+   e.g. PutPart id; DeletePart id on a dedup hit), all fault positions, all initial directories that do not already
+   contain the temp/backup names this transaction will generate (os.CreateTemp / ULID names are unique).
+   Holds since rollback hooks run last-registered-first (fix 98ee436); with registration order it was false
+   (former C03_rollback_full_refuted; the witnesses are the Examples below and corpus/C03/rollback-order-orphan.txt). *)
+Theorem C03_rollback_full : forall (D : Type) (prog : list (tstep D)) (ft : fault) (dbc : D) (fs0 : fsys),
   (forall n, fs0 (PTemp n) = None /\ fs0 (PBackup n) = None) ->
-  NoDup (prog_ids prog) ->
   (forall j, ft <> FAfter j) ->
   let '(ok, db', fs') := run_tx ft prog dbc fs0 in
   ok = false -> db' = dbc /\ forall p, fs' p = fs0 p.
 Proof. exact run_tx_rollback. Qed.
-Print Assumptions C03_rollback_partial.
+Print Assumptions C03_rollback_full.
 
-(* (2) the same statement without "pairwise distinct ids" (observable = published part files only) is FALSE:
-   rollback hooks run in registration order, so PutPart id; DeletePart id (what dedupeFreshPart does on a dedup
-   hit) followed by a failing commit resurrects the deduplicated part as an orphan file *)
-Definition C03_rollback_full : Prop :=
-  forall (prog : list (tstep N)) (ft : fault) (dbc : N) (fs0 : fsys),
-  (forall n, fs0 (PTemp n) = None /\ fs0 (PBackup n) = None) ->
-  (forall j, ft <> FAfter j) ->
-  let '(ok, db', fs') := run_tx ft prog dbc fs0 in
-  ok = false -> db' = dbc /\ forall id, fs' (PFinal id) = fs0 (PFinal id).
-Theorem C03_rollback_full_refuted : ~ C03_rollback_full.
-Proof.
-  intros H.
-  specialize (H [SPut 1%N B"bb"; SDel 1%N] FCommit 0%N (fun _ => None) (fun n => conj eq_refl eq_refl)).
-  cbn in H. destruct (H ltac:(discriminate) eq_refl) as [_ H1]. specialize (H1 1%N). discriminate.
-Qed.
-Print Assumptions C03_rollback_full_refuted.
-
-(* (3) the property at full strength — EVERY fault, including a failing after-commit hook — is FALSE even for
-   distinct ids: Commit returns the hook's error after the database committed *)
+(* (2) the property at full strength — EVERY fault, including a failing after-commit hook — is FALSE:
+   Commit returns the hook's error after the database committed *)
 Definition C03_full : Prop :=
   forall (prog : list (tstep N)) (ft : fault) (dbc : N) (fs0 : fsys),
   (forall n, fs0 (PTemp n) = None /\ fs0 (PBackup n) = None) ->
-  NoDup (prog_ids prog) ->
   let '(ok, db', fs') := run_tx ft prog dbc fs0 in
   ok = false -> db' = dbc /\ forall id, fs' (PFinal id) = fs0 (PFinal id).
 Theorem C03_full_refuted : ~ C03_full.
@@ -52,12 +36,11 @@ Proof.
   specialize (H [SDb (fun _ => 5%N); SDel 1%N] (FAfter 0) 0%N (init_fs [(1%N, B"aa")])).
   assert (Hfresh : forall n, init_fs [(1%N, B"aa")] (PTemp n) = None /\ init_fs [(1%N, B"aa")] (PBackup n) = None)
     by (intros n; split; reflexivity).
-  assert (Hnd : NoDup (prog_ids [SDb (fun _ : N => 5%N); SDel 1%N])) by (repeat constructor; intros []).
-  specialize (H Hfresh Hnd). cbn in H. destruct (H eq_refl) as [H0 _]. discriminate.
+  specialize (H Hfresh). cbn in H. destruct (H eq_refl) as [H0 _]. discriminate.
 Qed.
 Print Assumptions C03_full_refuted.
 
-(* (4) M-META: an operation that answers an error — precondition failed, no such bucket/key/upload, invalid part,
+(* (3) M-META: an operation that answers an error — precondition failed, no such bucket/key/upload, invalid part,
    part order, write offset, a violated unique index, … — returns the state it was given (only the model's
    op-index clock is set), for ALL states, histories and operations *)
 Theorem C03_meta_error_no_trace : forall i hist s o,
@@ -74,6 +57,15 @@ Proof. vm_compute. repeat split. Qed.
 Example C03_ex_commit :
   let '(ok, db, fs) := run_tx FNone [SDb (fun _ => 5%N); SPut 2%N B"bb"; SDel 1%N] 0%N (init_fs [(1%N, B"aa")]) in
   ok = true /\ db = 5%N /\ fs (PFinal 1%N) = None /\ fs (PFinal 2%N) = Some B"bb" /\ fs (PBackup 2) = None.
+Proof. vm_compute. repeat split. Qed.
+(* regression: the witnesses of the former rollback-order defect are now undone completely *)
+Example C03_ex_put_then_delete_same_id :
+  let '(ok, db, fs) := run_tx FCommit [SPut 1%N B"bb"; SDel 1%N] 0%N (fun _ => None) in
+  ok = false /\ fs (PFinal 1%N) = None /\ fs (PTemp 0) = None /\ fs (PBackup 1) = None.
+Proof. vm_compute. repeat split. Qed.
+Example C03_ex_delete_then_put_same_id :
+  let '(ok, db, fs) := run_tx FCommit [SDel 1%N; SPut 1%N B"bb"] 0%N (init_fs [(1%N, B"aa")]) in
+  ok = false /\ fs (PFinal 1%N) = Some B"aa" /\ fs (PBackup 0) = None /\ fs (PTemp 1) = None.
 Proof. vm_compute. repeat split. Qed.
 Example C03_ex_meta_error : exists s,
   step 1 [ROk] (fst (run [OMb B"b"])) (OPut B"nobucket" B"k" B"x" CRNone) = (s, RErr NoSuchBucket).
